@@ -96,7 +96,7 @@ Definition step (s : st) (e : event) : st * list clause :=
       (match e_rc e with ROk => set_opens s (((1, arg (e_args e) 0), wants_write (arg (e_args e) 2)) :: opens s) | _ => s end, [])
     else if String.eqb name "hclose" then (match e_rc e with ROk => set_opens s (remove_key (0, arg (e_args e) 0) (opens s)) | _ => s end, [])
     else if String.eqb name "sdend" then (match e_rc e with RNa => s | _ => set_opens s (remove_key (1, arg (e_args e) 0) (opens s)) end, [])
-    else if String.eqb name "closeall" then (set_opens s [], [])
+    else if String.eqb name "closeall" then (match e_rc e with RFail => set_opens s [((9, 9), true)] | _ => set_opens s [] end, [])
     else (s, [])
   else
   (* ---- after the snapshot ---- *)
@@ -130,7 +130,13 @@ Definition step (s : st) (e : event) : st * list clause :=
   else if String.eqb name "sdend" then
     (match e_rc e with RNa => s | _ => set_opens s (remove_key (1, arg (e_args e) 0) (opens s)) end, dev)
   else if String.eqb name "closeall" then
-    (set_opens s [], if negb (any_rw s) && negb (Z.eqb (e_wcalls e) 0) then [WriteReachedDevice] else [])
+    (* a close that failed while a write-mode handle was open leaves the file in an unknown open state: nothing is
+       required afterwards *)
+    ((match e_rc e with
+      | RFail => if any_rw s then {| opens := [((9, 9), true)]; snapped := true; rw_seen := true; tainted := true; dump0 := dump0 s |}
+                 else set_opens s []      (* only read-only handles can be left over *)
+      | _ => set_opens s [] end),
+     if negb (any_rw s) && negb (Z.eqb (e_wcalls e) 0) then [WriteReachedDevice] else [])
   else
     match e_rc e with
     | RNa => (s, [])
